@@ -137,67 +137,69 @@ Op(k, id, pid, i, nm, s, ms) == [k |-> k, id |-> id, pid |-> pid, i |-> i, nm |-
                                  path |-> PathOf(id), ppath |-> PathOf(pid)]
 NoMs == <<>>
 
-Delete == "delete" \in OpKinds /\ \E id \in TargetIds :
-            Step(Op("delete", id, 0-1, 0, <<>>, <<>>, NoMs), SubstSeq(doc, id, <<>>), 0)
-ReplaceWith == "replace_with" \in OpKinds /\ \E id \in TargetIds : \E ms \in Material :
-            Step(Op("replace_with", id, 0-1, 0, <<>>, <<>>, ms), SubstSeq(doc, id, Mat(ms, nextId)), SnippetSize * Len(ms))
+(* ---- one parametrised step per operation kind (shared by the exploring actions below and by EditsTrace) ---- *)
+DeleteS(id) == Step(Op("delete", id, 0-1, 0, <<>>, <<>>, NoMs), SubstSeq(doc, id, <<>>), 0)
+ReplaceWithS(id, ms) == Step(Op("replace_with", id, 0-1, 0, <<>>, <<>>, ms), SubstSeq(doc, id, Mat(ms, nextId)), SnippetSize * Len(ms))
+ReplaceS(pid, cid, ms) == Step(Op("replace", cid, pid, 0, <<>>, <<>>, ms), SubstSeq(doc, cid, Mat(ms, nextId)), SnippetSize * Len(ms))
+RemoveS(pid, cid) == Step(Op("remove", cid, pid, 0, <<>>, <<>>, NoMs), SubstSeq(doc, cid, <<>>), 0)
+InsertS(pid, i, ms) == Step(Op("insert", 0-1, pid, i, <<>>, <<>>, ms), WithBody(pid, InsertAt(BodyOf(pid), i, Mat(ms, nextId))), SnippetSize * Len(ms))
+AppendS(pid, ms) == Step(Op("append", 0-1, pid, 0, <<>>, <<>>, ms), WithBody(pid, BodyOf(pid) \o Mat(ms, nextId)), SnippetSize * Len(ms))
+RenameS(id, nm) == Step(Op("rename", id, 0-1, 0, nm, <<>>, NoMs), Update(id, [GetSeq(doc, id) EXCEPT !.name = nm]), 0)
+SetStringS(id, s) == LET x == GetSeq(doc, id) IN
+                     Step(Op("set_string", id, 0-1, 0, <<>>, s, NoMs),
+                          IF StringCmd(x) THEN Update(id, [x EXCEPT !.args = << [x.args[1] EXCEPT !.body = << Tx(s, nextId) >>] >>])
+                          ELSE Update(id, [x EXCEPT !.body = << Tx(s, nextId) >>]), 1)
+(* argument-list operations: j = index parameter, s = extra parameter (group kind / slice end as a string) *)
+ArgsOK(k, id, j, s) ==
+  LET x == GetSeq(doc, id)
+      na == Len(x.args) IN
+  /\ HasArgs(x)
+  /\ CASE k = "args_append" -> na < 4 /\ s \in {<<"{">>, <<"[">>} /\ j = 0
+        [] k = "args_insert" -> na < 4 /\ j \in 0..na /\ s = <<"{">>
+        [] k \in {"args_pop", "args_remove", "args_del"} -> na > 0 /\ j \in 0..(na-1) /\ s = <<>>
+        [] k = "args_reverse" -> na > 1 /\ j = 0 /\ s = <<>>
+        [] k = "args_swap" -> na > 1 /\ j \in 1..(na-1) /\ s = <<>>
+        [] k = "args_clear" -> na > 0 /\ j = 0 /\ s = <<>>
+        [] k = "args_slice" -> na > 0 /\ j \in 0..1 /\ s \in {<<ToString(b)>> : b \in 1..na}
+        [] OTHER -> FALSE
+ArgsNew(k, id, j, s) ==
+  LET x == GetSeq(doc, id)
+      na == Len(x.args) IN
+  CASE k = "args_append" -> Append(x.args, FreshGroup(s[1], <<"z">>, nextId))
+    [] k = "args_insert" -> InsertAt(x.args, j, << FreshGroup("{", <<"z">>, nextId) >>)
+    [] k \in {"args_pop", "args_del"} -> SubSeq(x.args, 1, j) \o SubSeq(x.args, j+2, na)
+    [] k = "args_remove" ->      \* remove(args[j]): the first argument textually equal to args[j] goes
+         LET f == CHOOSE f \in 1..na : Str(x.args[f]) = Str(x.args[j+1]) /\ \A g \in 1..(f-1) : Str(x.args[g]) # Str(x.args[j+1]) IN
+         SubSeq(x.args, 1, f-1) \o SubSeq(x.args, f+1, na)
+    [] k = "args_reverse" -> [m \in 1..na |-> x.args[na + 1 - m]]
+    [] k = "args_swap" -> [m \in 1..na |-> IF m = 1 THEN x.args[j+1] ELSE IF m = j+1 THEN x.args[1] ELSE x.args[m]]       \* args[0], args[j] = args[j], args[0]
+    [] k = "args_clear" -> <<>>
+    [] OTHER -> LET b == CHOOSE b \in 1..na : <<ToString(b)>> = s IN SubSeq(x.args, j+1, b)                                  \* node.args = node.args[j:b]
+ArgsS(k, id, j, s) == Step(Op(k, id, 0-1, j, <<>>, s, NoMs), Update(id, [GetSeq(doc, id) EXCEPT !.args = ArgsNew(k, id, j, s)]),
+                           IF k \in {"args_append", "args_insert"} THEN 2 ELSE 0)
+
+Delete == "delete" \in OpKinds /\ \E id \in TargetIds : DeleteS(id)
+ReplaceWith == "replace_with" \in OpKinds /\ \E id \in TargetIds : \E ms \in Material : ReplaceWithS(id, ms)
 (* parent.replace(child, ...) / parent.remove(child): child directly in the parent's body or in one of its argument groups *)
-ChildrenOfP(pid) == LET p == IF pid = 0-1 THEN Root ELSE GetSeq(doc, pid) IN
-                    {x.pos : x \in {All(p)[i] : i \in {j \in 1..Len(All(p)) : All(p)[j].k # "text"}}}
+ChildrenOfP(pid) == LET pn == IF pid = 0-1 THEN Root ELSE GetSeq(doc, pid) IN
+                    {x.pos : x \in {All(pn)[i] : i \in {j \in 1..Len(All(pn)) : All(pn)[j].k # "text"}}}
 BodyChildren(pid) == {BodyOf(pid)[i].pos : i \in {j \in 1..Len(BodyOf(pid)) : BodyOf(pid)[j].k # "text"}}
-Replace == "replace" \in OpKinds /\ \E pid \in ReplaceHosts : \E cid \in ChildrenOfP(pid) : \E ms \in Material :
-            Step(Op("replace", cid, pid, 0, <<>>, <<>>, ms), SubstSeq(doc, cid, Mat(ms, nextId)), SnippetSize * Len(ms))
-Remove == "remove" \in OpKinds /\ \E pid \in ParentIds : \E cid \in BodyChildren(pid) :
-            Step(Op("remove", cid, pid, 0, <<>>, <<>>, NoMs), SubstSeq(doc, cid, <<>>), 0)
-Insert == "insert" \in OpKinds /\ \E pid \in ParentIds : \E i \in 0..(Len(BodyOf(pid)) + 1) : \E ms \in Material :
-            Step(Op("insert", 0-1, pid, i, <<>>, <<>>, ms), WithBody(pid, InsertAt(BodyOf(pid), i, Mat(ms, nextId))), SnippetSize * Len(ms))
-InsertNeg == "insert" \in OpKinds /\ \E pid \in ParentIds : \E i \in {0-1, 0-2} : \E ms \in {m \in Material : Len(m) = 1} :
-            Step(Op("insert", 0-1, pid, i, <<>>, <<>>, ms), WithBody(pid, InsertAt(BodyOf(pid), i, Mat(ms, nextId))), SnippetSize)
-AppendOp == "append" \in OpKinds /\ \E pid \in ParentIds : \E ms \in Material :
-            Step(Op("append", 0-1, pid, 0, <<>>, <<>>, ms), WithBody(pid, BodyOf(pid) \o Mat(ms, nextId)), SnippetSize * Len(ms))
-Rename == "rename" \in OpKinds /\ \E id \in AllTargetIds : \E nm \in NewNames :
-            /\ Renamable(GetSeq(doc, id))
-            /\ Step(Op("rename", id, 0-1, 0, nm, <<>>, NoMs), Update(id, [GetSeq(doc, id) EXCEPT !.name = nm]), 0)
-SetString == "set_string" \in OpKinds /\ \E id \in NodeTargetIds : \E s \in NewStrings :
-            LET x == GetSeq(doc, id) IN
-            /\ (StringCmd(x) \/ StringEnv(x))
-            /\ Step(Op("set_string", id, 0-1, 0, <<>>, s, NoMs),
-                    IF StringCmd(x) THEN Update(id, [x EXCEPT !.args = << [x.args[1] EXCEPT !.body = << Tx(s, nextId) >>] >>])
-                    ELSE Update(id, [x EXCEPT !.body = << Tx(s, nextId) >>]), 1)
+Replace == "replace" \in OpKinds /\ \E pid \in ReplaceHosts : \E cid \in ChildrenOfP(pid) : \E ms \in Material : ReplaceS(pid, cid, ms)
+Remove == "remove" \in OpKinds /\ \E pid \in ParentIds : \E cid \in BodyChildren(pid) : RemoveS(pid, cid)
+InsertIdxOK(pid, i, ms) == i \in 0..(Len(BodyOf(pid)) + 1) \/ (i \in {0-1, 0-2} /\ Len(ms) = 1)
+Insert == "insert" \in OpKinds /\ \E pid \in ParentIds : \E ms \in Material : \E i \in (0-2)..(Len(BodyOf(pid)) + 1) :
+            InsertIdxOK(pid, i, ms) /\ InsertS(pid, i, ms)
+AppendOp == "append" \in OpKinds /\ \E pid \in ParentIds : \E ms \in Material : AppendS(pid, ms)
+RenameOK(id) == id \in AllTargetIds /\ Renamable(GetSeq(doc, id))
+Rename == "rename" \in OpKinds /\ \E id \in AllTargetIds : \E nm \in NewNames : RenameOK(id) /\ RenameS(id, nm)
+SetStringOK(id) == id \in NodeTargetIds /\ (StringCmd(GetSeq(doc, id)) \/ StringEnv(GetSeq(doc, id)))
+SetString == "set_string" \in OpKinds /\ \E id \in NodeTargetIds : \E s \in NewStrings : SetStringOK(id) /\ SetStringS(id, s)
 ArgsOps == {"args_swap", "args_del", "args_append", "args_pop", "args_reverse", "args_slice", "args_insert", "args_remove", "args_clear"} \cap OpKinds
-ArgsEdit == \E k \in ArgsOps : \E id \in NodeTargetIds :
-            LET x == GetSeq(doc, id)
-                na == Len(x.args) IN
-            /\ HasArgs(x)
-            /\ \/ /\ k = "args_append" /\ na < 4
-                  /\ \E kind \in {"{", "["} :
-                       Step(Op(k, id, 0-1, 0, <<>>, <<kind>>, NoMs), Update(id, [x EXCEPT !.args = Append(x.args, FreshGroup(kind, <<"z">>, nextId))]), 2)
-               \/ /\ k = "args_insert" /\ na < 4
-                  /\ \E j \in 0..na :
-                       Step(Op(k, id, 0-1, j, <<>>, <<"{">>, NoMs), Update(id, [x EXCEPT !.args = InsertAt(x.args, j, << FreshGroup("{", <<"z">>, nextId) >>)]), 2)
-               \/ /\ k = "args_pop" /\ na > 0
-                  /\ \E j \in 0..(na-1) :
-                       Step(Op(k, id, 0-1, j, <<>>, <<>>, NoMs), Update(id, [x EXCEPT !.args = SubSeq(x.args, 1, j) \o SubSeq(x.args, j+2, na)]), 0)
-               \/ /\ k = "args_remove" /\ na > 0
-                  /\ \E j \in 0..(na-1) :      \* remove(args[j]): the first argument textually equal to args[j] goes
-                       LET f == CHOOSE f \in 1..na : Str(x.args[f]) = Str(x.args[j+1]) /\ \A g \in 1..(f-1) : Str(x.args[g]) # Str(x.args[j+1]) IN
-                       Step(Op(k, id, 0-1, j, <<>>, <<>>, NoMs), Update(id, [x EXCEPT !.args = SubSeq(x.args, 1, f-1) \o SubSeq(x.args, f+1, na)]), 0)
-               \/ /\ k = "args_reverse" /\ na > 1
-                  /\ Step(Op(k, id, 0-1, 0, <<>>, <<>>, NoMs), Update(id, [x EXCEPT !.args = [j \in 1..na |-> x.args[na + 1 - j]]]), 0)
-               \/ /\ k = "args_swap" /\ na > 1       \* args[0], args[j] = args[j], args[0]
-                  /\ \E j \in 1..(na-1) :
-                       Step(Op(k, id, 0-1, j, <<>>, <<>>, NoMs), Update(id, [x EXCEPT !.args = [m \in 1..na |-> IF m = 1 THEN x.args[j+1] ELSE IF m = j+1 THEN x.args[1] ELSE x.args[m]]]), 0)
-               \/ /\ k = "args_del" /\ na > 0        \* del args[j]
-                  /\ \E j \in 0..(na-1) :
-                       Step(Op(k, id, 0-1, j, <<>>, <<>>, NoMs), Update(id, [x EXCEPT !.args = SubSeq(x.args, 1, j) \o SubSeq(x.args, j+2, na)]), 0)
-               \/ /\ k = "args_clear" /\ na > 0
-                  /\ Step(Op(k, id, 0-1, 0, <<>>, <<>>, NoMs), Update(id, [x EXCEPT !.args = <<>>]), 0)
-               \/ /\ k = "args_slice" /\ na > 0
-                  /\ \E a \in 0..1 : \E b \in 1..na :      \* node.args = node.args[a:b]
-                       Step(Op(k, id, 0-1, a, <<>>, <<ToString(b)>>, NoMs), Update(id, [x EXCEPT !.args = SubSeq(x.args, a+1, b)]), 0)
+ArgParams == {<<"{">>, <<"[">>, <<>>} \cup {<<ToString(b)>> : b \in 1..4}
+ArgsEdit == \E k \in ArgsOps : \E id \in NodeTargetIds : \E j \in 0..4 : \E s \in ArgParams : ArgsOK(k, id, j, s) /\ ArgsS(k, id, j, s)
 
 Edit == /\ estage = "edit" /\ Len(hist) < MaxEdits
-        /\ (Delete \/ ReplaceWith \/ Replace \/ Remove \/ Insert \/ InsertNeg \/ AppendOp \/ Rename \/ SetString \/ ArgsEdit)
+        /\ (Delete \/ ReplaceWith \/ Replace \/ Remove \/ Insert \/ AppendOp \/ Rename \/ SetString \/ ArgsEdit)
 ENext == Pick \/ Parse \/ Begin \/ Edit
 ESpec == EInit /\ [][ENext]_allv
 
